@@ -45,7 +45,7 @@ From Coq Require Import ZArith.
 From V.model Require Import Base Deb822Lex Deb822Parse Grammar Lossy LossySpec Derive TypedDocs.
 From V.gen Require Import Structs_gen.
 From V.model Require Import Codecs.
-From V.proofs Require Import LossyP LossyRtP DeriveP TypedCodecP TypedCanonP TypedDocsP TypedSpecP TypedClosedP.
+From V.proofs Require Import GrammarAccP LossyP LossyRtP DeriveP TypedCodecP TypedCanonP TypedDocsP TypedSpecP TypedClosedP.
 
 (* ------------------------------------------------------------------ the known classes *)
 Definition Known_files_hash_word (s : str) : Prop :=
@@ -469,6 +469,30 @@ Qed.
 Check doc_accept_copyright : forall E ext_parse s c,
   parse_copyright E ext_parse s = TOk c <-> exists t, from_str s = Ok t /\ copyright_spec E ext_parse s (paragraphs t) c.
 Print Assumptions doc_accept_copyright.
+
+(* on a well-formed document (C03): the tree is tree_of d, its items are content d - so the roles and
+   fields above are read off the document's own content *)
+Theorem doc_fields_control_wf : forall E ext_parse d c, wf_doc d = true -> parse_control E ext_parse (render d) = TOk c ->
+  from_str (render d) = Ok (tree_of d) /\ doc_items (tree_of d) = content d /\ control_spec E ext_parse (paragraphs (tree_of d)) c.
+Proof.
+  intros E pa d c Hwf H. destruct (GrammarAccP.C03_accept_all d Hwf) as (Ht & _ & Hi). split; [exact Ht|]. split; [exact Hi|].
+  destruct (control_sound _ _ _ _ H) as (t & Ht' & Hs). rewrite Ht in Ht'. injection Ht' as <-. exact Hs.
+Qed.
+Check doc_fields_control_wf : forall E ext_parse d c, wf_doc d = true -> parse_control E ext_parse (render d) = TOk c ->
+  from_str (render d) = Ok (tree_of d) /\ doc_items (tree_of d) = content d /\ control_spec E ext_parse (paragraphs (tree_of d)) c.
+Print Assumptions doc_fields_control_wf.
+
+Theorem doc_fields_copyright_wf : forall E ext_parse d c, wf_doc d = true -> parse_copyright E ext_parse (render d) = TOk c ->
+  from_str (render d) = Ok (tree_of d) /\ doc_items (tree_of d) = content d /\
+  copyright_spec E ext_parse (render d) (paragraphs (tree_of d)) c.
+Proof.
+  intros E pa d c Hwf H. destruct (GrammarAccP.C03_accept_all d Hwf) as (Ht & _ & Hi). split; [exact Ht|]. split; [exact Hi|].
+  destruct (copyright_sound _ _ _ _ H) as (t & Ht' & Hs). rewrite Ht in Ht'. injection Ht' as <-. exact Hs.
+Qed.
+Check doc_fields_copyright_wf : forall E ext_parse d c, wf_doc d = true -> parse_copyright E ext_parse (render d) = TOk c ->
+  from_str (render d) = Ok (tree_of d) /\ doc_items (tree_of d) = content d /\
+  copyright_spec E ext_parse (render d) (paragraphs (tree_of d)) c.
+Print Assumptions doc_fields_copyright_wf.
 
 (* ================================================================== no assumption left *)
 (* Release and Removal use no external codec: for ANY codecs, nothing is assumed *)
